@@ -5,8 +5,12 @@ V = os.path.dirname(os.path.dirname(os.path.abspath(__file__)))
 sys.path.insert(0, os.path.join(V, "lib"))
 props = [json.loads(l) for l in open(os.path.join(V, "properties.jsonl"))]
 checks, na = [], []
+ready = [l.strip() for l in open(os.path.join(V, "lib", "props", "READY")) if l.strip() and not l.startswith("#")]
 for p in props:
     pid = p["id"]
+    if pid not in ready:
+        na.append({"property_id": pid, "reason": "not yet claimed: model, specification, correspondence check and oracle exist or are being built, but the proof-level check for this property is not finished; it is claimed only once ./check %s passes with its first theorem proved" % pid})
+        continue
     try:
         m = importlib.import_module("props." + pid.lower())
     except ModuleNotFoundError:
